@@ -183,6 +183,14 @@ def c08(tier):
                     **_HO)]
 
 
+def c10(tier):
+    q = [_ob("K-version", "harness.h_cluster", "k_version", dict(vmax=5)),
+         _ob("H-cluster", "harness.h_cluster", "h_cluster", dict(handles=2, steps=4), **_HO)]
+    if tier == "quick":
+        return q
+    return q + [_ob("H-cluster/3", "harness.h_cluster", "h_cluster", dict(handles=3, steps=4), **_HO)]
+
+
 def obligations(prop, tier):
     table = {
         "C01": lambda t: k_batch(t) + k_queue(t) + h_submit(t),
@@ -194,6 +202,7 @@ def obligations(prop, tier):
         "C07": lambda t: k_batch(t) + h_submit(t) + h_dry(t),
         "C08": c08,
         "C09": h_submit,
+        "C10": lambda t: c10(t) + [o for o in c13(t) if o["name"].startswith("H-resubmit")][:1],
         "C12": h_lost,
         "C13": c13,
         "C14": c14,
